@@ -172,8 +172,15 @@ def step1 (w : W) (op impl : String) : W × String × Verdict :=
     let s' := if base.chain.isEmpty then w.genesis else restart base
     let w' := { w with r := s' }
     let expected := "Rok Cok " ++ digest s'
-    let (m, v) := finish w' impl expected (implDs.getD 0 "") (digest s') implRes "ok"
-    (w', m, if v matches .hold then .hold else .fail)
+    -- C08: the crash state must open, pass the node's own verification in bounded time, and equal the
+    -- state after k commits
+    let implC := ((secs.find? (·.startsWith "C")).getD "C?").drop 1 |>.toString
+    let extra := if implRes == "hang" then ["C08[verification-hangs]"]
+      else if implRes != "ok" then ["C08[restart-fails]"]
+      else if implC != "ok" then ["C08[verification-fails]"]
+      else if expected != impl then ["C08[crash-state-differs]"] else []
+    let (m, v) := finish w' impl expected (implDs.getD 0 "") (digest s') implRes "ok" extra
+    (w', m, v)
   | ["c8same"] =>
     let expected := "Rok " ++ digest w.r ++ " " ++ digest w.f
     let same := implDs.getD 0 "a" == implDs.getD 1 "b"
